@@ -52,16 +52,17 @@ theorem RefExact.lookup {m : Mgr} {ext : Nat → Nat} (h : RefExact m ext) (k : 
 `_init_terminal` gives to node 1 is accounted for by `RefExact` itself) -/
 def hext (a : AMgr) : Nat → Nat := fun k => hcount a.handles k
 
-/-- `off = true` : dynamic reordering is not enabled;  `off = false` : it may be enabled, and there
-are at least two variables (with one variable sifting raises `ValueError`, C07
-`sift_single_variable_raises`, so an operation that triggers reordering would fail) -/
+/-- `off = true` : dynamic reordering is not enabled;  `off = false` : EVERY configuration — it may
+be enabled or not, with any number of declared variables (with fewer than two, a reordering
+request that fires ends in the `ValueError` of sifting, C07 `sift_single_variable_raises`, in a
+state that is good all the same: `tryToReorder_few`) -/
 def ModeOK (off : Bool) (m : Mgr) : Prop :=
-  (off = true → m.lastLen = none) ∧ (off = false → 2 ≤ m.nvars)
+  off = true → m.lastLen = none
 
-/-- a step that keeps the switch and does not lose variables keeps the mode -/
+/-- a step that keeps the switch keeps the mode -/
 theorem ModeOK.transfer {off : Bool} {m m' : Mgr} (h : ModeOK off m) (hl : m'.lastLen = m.lastLen)
-    (hn : m.nvars ≤ m'.nvars) : ModeOK off m' :=
-  ⟨fun ho => by rw [hl]; exact h.1 ho, fun ho => Nat.le_trans (h.2 ho) hn⟩
+    (_hn : m.nvars ≤ m'.nvars) : ModeOK off m' :=
+  fun ho => by rw [hl]; exact h ho
 
 /-- the part of the invariant that speaks about the wrapped manager alone, relative to a
 ledger `ext` of references held from outside: the manager invariant, the name maps (C14), exact
@@ -98,8 +99,23 @@ theorem AInv.order {a : AMgr} (h : AInv off a) : OrderOK a.m.tbl := h.minv.order
 theorem AInv.counts {a : AMgr} (h : AInv off a) : RefExact a.m (hext a) := h.minv.counts
 theorem AInv.mode {a : AMgr} (h : AInv off a) : ModeOK off a.m := h.minv.mode
 
+/-- a state of the mode "not enabled" is a state of the mode "every configuration" -/
+theorem AInv.toDyn {a : AMgr} (h : AInv true a) : AInv false a :=
+  ⟨⟨h.minv.inv, h.minv.order, h.minv.counts, h.minv.ctx, h.minv.sched, h.minv.roots,
+    fun hf => Bool.noConfusion hf⟩, h.hmem⟩
+
 theorem hext_pos_of_handle (a : AMgr) (h : Nat) (u : Int) (hh : a.handles[h]? = some u) :
     0 < hext a u.natAbs := hcount_pos_of_handle a.handles h u hh
+
+/-- the value theorems of the mode `off = false` are stated for at least two declared variables
+(with fewer, a reordering request that fires ends in the `ValueError` of sifting — the call is then
+covered by the every-outcome theorems `C08_ops_dyn_total`, not by a theorem about its value) -/
+def Two (off : Bool) (a : AMgr) : Prop := off = false → 2 ≤ a.m.nvars
+
+theorem Two.of_tbl {off : Bool} {a b : AMgr} (h : Two off a) (ht : b.m.tbl = a.m.tbl) : Two off b := by
+  intro ho
+  show 2 ≤ b.m.tbl.nvars
+  rw [ht]; exact h ho
 
 /-- `Function(u, bdd)` with a fresh handle id on a stored node -/
 theorem wrapF_spec (a : AMgr) (h : Nat) (u : Int) (hi : AInv off a)
@@ -825,11 +841,11 @@ theorem configure_keeps (r : Option Bool) (hr : off = true → r ≠ some true) 
     | true =>
       change (Except.ok m.lastLen.isSome, { m with lastLen := some (max Gen.reorderStarts m.len) }) = _ at he
       cases he
-      exact key _ ⟨fun ho => absurd rfl (hr ho), hm.mode.2⟩
+      exact key _ (fun ho => absurd rfl (hr ho))
     | false =>
       change (Except.ok m.lastLen.isSome, { m with lastLen := none }) = _ at he
       cases he
-      exact key _ ⟨fun _ => rfl, hm.mode.2⟩
+      exact key _ (fun _ => rfl)
 
 theorem aConfigure_keeps (r : Option Bool) (hr : off = true → r ≠ some true) (h : Nat) :
     AKeeps off h (aConfigure r) :=
